@@ -9,10 +9,10 @@ TRUSTED = ["translator /verif/gen/adapters.go: adapter shapes (arity check, conv
 ASSUMPTIONS = ["hand-written function bodies behind the adapters are decided by enumeration over the boundary pool (complete for tuples of length 0..2 in the quick tier and 0..3 in the thorough tier, sampled above), not by a theorem",
                "panic domains of the Go runtime / standard library calls used by the size guards (makeslice above runtime.maxAlloc = 2^48, strings.Repeat on negative count or overflow, Builder.Grow on negative count, slicing out of range) are modelled from their documentation (SizeGuard.v go_make, go_repeat, go_builder_grow, go_slice_to)",
                "string parse facts (strconv.ParseInt/ParseUint/ParseFloat, time.Parse, time.LoadLocation) are oracle inputs of the adapter model, computed by the harness with the Go standard library",
-               "time.Sleep with a duration above 1 ms is not executed (it blocks by design); results above 4 MiB of the size-driven functions are not materialised, the guard outcome of those inputs is decided by the model only",
+               "time.Sleep with a duration above 25 ms is not executed (it blocks by design; 12 ms is executed so that its abort poll is reached); results above 4 MiB of the size-driven functions are not materialised, the guard outcome of those inputs is decided by the model only",
                "allocations which the operating system cannot satisfy below the limits of the code (fatal out-of-memory) are outside the property"]
 
-MODES = ["value", "ex", "exv", "script"]
+MODES = ["value", "ex", "exv", "exn", "script"]
 
 def expected_msg(tok):
     """model token -> exact error text, or None when the body is reached"""
